@@ -74,13 +74,22 @@ DOC_MUTATORS = {
     "build_empty_mp": {0}, "_update_ms": {0}, "_update_mps": {0}, "_push_cano": {0}, "_switch_direction": {0},
     "__init__": {0}, "__del__": {0}, "__iadd__": {0},
     "try_swap_site": {0}, "variational_compress": {"guess"}, "optimize_mps": {"mps", "mpo"},
-    "optimize_ttns": {"ttns"}, "push_cano_to_parent": {0}, "push_cano_to_child": {0}, "decompose_to_parent": {0},
-    "decompose_to_child": {0}, "merge_to_parent": {0}, "merge_to_child": {0}, "compress_node": {0}, "update_2site": {0},
+    "optimize_ttns": {"ttns"}, "push_cano_to_parent": {0, "node"}, "push_cano_to_child": {0, "node"}, "decompose_to_parent": {0, "node"},
+    "decompose_to_child": {0, "node"}, "merge_to_parent": {0, "node"}, "merge_to_child": {0, "node"}, "compress_node": {0, "node"}, "update_2site": {0, "node"},
     "compress_recursion": {"ttns"}, "update_1site": {0}, "update_1bond": {0},
     "build_children_environ": {0}, "build_parent_environ": {0}, "build_children_environ_node": {0}, "build_parent_environ_node": {0},
     "write": {0}, "write_l_sentinel": {0}, "write_r_sentinel": {0}, "_construct": {0}, "GetLR": {0},
     "astype": {0}, "add_child": {0, 1}, "set_bonddim": {0}, "update": {0},
 }
+# operations that by contract preserve tensors x prefactor (that they really do is C04's business): their effect on the
+# receiver is GAUGE whatever their bodies store
+GAUGE_CONTRACT = {"canonicalise", "ensure_left_canonical", "ensure_right_canonical", "move_qnidx", "_switch_direction", "to_complex",
+                  "push_cano_to_parent", "push_cano_to_child", "_push_cano", "check_canonical", "check_shape", "promote_mt_type",
+                  # on-the-fly swapping re-orders the operator in place: exempt by the property text (equality up to the permutation is C17)
+                  "try_swap_site"}
+# method names too generic to be resolved by name on sub-objects (lists, dicts, arrays, configs)
+GENERIC_NAMES = {"append", "copy", "update", "pop", "clear", "index", "count", "extend", "insert", "remove", "sort", "get", "items", "keys",
+                 "values", "conj", "reshape", "dot", "any", "all", "add", "scale", "norm", "load", "dump", "random", "evolve", "apply"}
 # functions with a parameter literally named `inplace`: the mutation is the contract when inplace=True
 INPLACE_MUTATORS = {"scale", "to_complex"}
 # documented to return (an alias of) their receiver / argument
@@ -103,7 +112,7 @@ FRESH_METHODS = {"copy", "conj", "conjugate", "to_complex", "dot", "sum", "any",
                  "var", "mean", "norm", "abs", "nearly_zero", "check_lortho", "check_rortho", "tobytes", "argsort", "nonzero",
                  "count", "index", "format", "join", "split", "startswith", "endswith", "replace", "lower", "upper", "strip", "is_integer",
                  "conjugate_", "trace", "diagonal", "cumsum", "prod", "round", "clip", "repeat", "take", "argmax", "argmin", "keys", "values",
-                 "items", "get", "total_seconds"}
+                 "items", "get", "total_seconds", "as_au", "as_unit", "find", "to_beta", "most_common", "describe"}
 NP_ARRAY_INPLACE_METHODS = {"fill", "sort", "put", "itemset", "resize", "partition", "setfield", "setflags"}
 MODULE_PREFIXES = {"np", "xp", "scipy", "logger", "logging", "os", "math", "stats", "itertools", "sp", "opt_einsum", "shutil", "warnings",
                    "functools", "collections", "random", "time", "sys", "json", "h5py", "backend", "oe", "numpy", "cupy"}
@@ -166,18 +175,39 @@ EMPTY = V()
 
 class Summary:
     def __init__(self):
-        self.eff = {}     # param idx -> (level, Why)
+        self.eff = {}     # param idx -> (level, Why): strongest effect on the object or any of its parts
+        self.effp = {}    # param idx -> (level, Why): strongest effect on parts / elements only (depth >= 1)
+        self.alt = {}     # param idx -> {origin key: Why}: other root causes at the strongest level
         self.ret = set()  # tags over P(i) / F (wrapped by S/A up to depth 2)
         self.ret_is_list = False
         self.version = 0
 
-    def bump(self, i, lvl, why):
-        cur = self.eff.get(i)
-        if cur is None or lvl > cur[0]:
-            self.eff[i] = (lvl, why)
+    def bump(self, i, lvl, why, part=False):
+        ch = False
+        for table, on in ((self.eff, True), (self.effp, part)):
+            if not on:
+                continue
+            cur = table.get(i)
+            if cur is None or lvl > cur[0]:
+                table[i] = (lvl, why)
+                ch = True
+                if table is self.eff:
+                    self.alt[i] = {}
+            elif table is self.eff and lvl == cur[0] and lvl >= VALUE and why.key() != cur[1].key():
+                # further independent root causes at the strongest level (bounded)
+                a = self.alt.setdefault(i, {})
+                if why.key() not in a and len(a) < 8:
+                    a[why.key()] = why
+                    ch = True
+        if ch:
             self.version += 1
-            return True
-        return False
+        return ch
+
+    def origins(self, i):
+        cur = self.eff.get(i)
+        if cur is None:
+            return []
+        return [cur[1]] + list(self.alt.get(i, {}).values())
 
     def add_ret(self, tags, is_list):
         ch = False
@@ -199,8 +229,9 @@ class Summary:
 
 
 class Engine:
-    def __init__(self, src, modules, state_classes, job_base="TdMpsJob"):
+    def __init__(self, src, modules, state_classes, job_base="TdMpsJob", doc_pairs=()):
         self.src = src
+        self.doc_pairs = set(doc_pairs)   # (rel, qual, param name) documented as internal work objects / mutators
         self.modules = [m for m in modules if src.has_module(m)]
         self.state_classes = set(state_classes)
         self.summ = {}
@@ -351,6 +382,9 @@ class FuncAnalyzer:
         self.depth = 0
         self.where = f"{fi.rel}::{fi.qual}"
         self.annot = {}
+        self.breaks = []
+        self.multi = set()
+        self.appended = {}
 
     # ------------------------------------------------------------------ driver
     def run(self):
@@ -373,10 +407,10 @@ class FuncAnalyzer:
                 is_list = True
             if i == 0 and self.fi.cls is not None and p.arg in ("self",):
                 types = frozenset({self.fi.cls.name})
-            env[p.arg] = V({P(i)}, is_list, None, types)
+            env[p.arg] = V({("S", P(i))} if is_list else {P(i)}, is_list, None, types)
         base = len(allp)
         if a.vararg:
-            env[a.vararg.arg] = V({P(base)}, True)
+            env[a.vararg.arg] = V({("S", P(base))}, True)
             base += 1
         for j, p in enumerate(a.kwonlyargs):
             env[p.arg] = V({P(base + j)})
@@ -415,7 +449,7 @@ class FuncAnalyzer:
                 continue
             l2 = self.cap(t, lvl)
             if l2 > NONE:
-                self.S.bump(r[1], l2, why)
+                self.S.bump(r[1], l2, why, part=wrap_depth(t) > 0)
 
     def why(self, node, what):
         return Why(self.fi.rel, self.fi.qual, norm_stmt(node, 110), getattr(node, "lineno", None), what)
@@ -510,7 +544,15 @@ class FuncAnalyzer:
                 self.block(s.orelse, env)
                 return
             self.ev(s.test, env)
+            tt = unparse(s.test).replace(" ", "")
+            added = None
+            if tt.startswith("len(") and tt.endswith(")>1") and isinstance(s.test, ast.Compare) and isinstance(s.test.left, ast.Call) \
+                    and s.test.left.args and isinstance(s.test.left.args[0], ast.Name):
+                added = s.test.left.args[0].id
+                self.multi.add(added)
             e1 = self.block(s.body, dict(env))
+            if added is not None:
+                self.multi.discard(added)
             e2 = self.block(s.orelse, dict(env))
             env.clear()
             env.update(self.join_env(e1, e2))
@@ -552,11 +594,27 @@ class FuncAnalyzer:
         if isinstance(s, ast.Assert):
             self.ev(s.test, env)
             return
-        if isinstance(s, (ast.Raise, ast.Pass, ast.Break, ast.Continue, ast.Import, ast.ImportFrom, ast.Global, ast.Nonlocal, ast.ClassDef)):
+        if isinstance(s, ast.Break):
+            if self.breaks:
+                self.breaks[-1].append(dict(env))
+            return
+        if isinstance(s, (ast.Raise, ast.Pass, ast.Continue, ast.Import, ast.ImportFrom, ast.Global, ast.Nonlocal, ast.ClassDef)):
             return
         raise AnalysisError(f"{self.where}: statement kind {type(s).__name__} not handled by EFFECT")
 
     def loop(self, s, env, head):
+        always = isinstance(s, ast.While) and isinstance(s.test, ast.Constant) and s.test.value is True
+        # reduction-queue idiom (this repository's compressed_sum): inside `if len(Q) > 1:` the loop
+        # `while len(Q) != 1:` pops the original terms and appends fresh partial sums; on exit Q holds an appended value
+        qname = None
+        if isinstance(s, ast.While):
+            t = unparse(s.test).replace(" ", "")
+            for q in self.multi:
+                if t in (f"len({q})!=1", f"len({q})>1"):
+                    qname = q
+        if qname is not None:
+            self.appended[qname] = EMPTY
+        self.breaks.append([])
         for _ in range(6):
             before = {k: v for k, v in env.items()}
             head(env)
@@ -567,6 +625,22 @@ class FuncAnalyzer:
             env.update(merged)
             if same:
                 break
+        brk = self.breaks.pop()
+        if always and brk:
+            out = brk[0]
+            for b in brk[1:]:
+                out = self.join_env(out, b)
+            env.clear()
+            env.update(out)
+        elif brk:
+            out = dict(env)
+            for b in brk:
+                out = self.join_env(out, b)
+            env.clear()
+            env.update(out)
+        if qname is not None:
+            ap = self.appended.pop(qname, EMPTY)
+            env[qname] = V(ap.tags, True)
 
     # ------------------------------------------------------------------ assignment / stores
     def assign(self, t, v, env, stmt):
@@ -1034,6 +1108,21 @@ class FuncAnalyzer:
                 if target is not None:
                     return self.apply([target], recv, args, kw, c, env)
                 return V({F}) if m in ("__new__",) else EMPTY
+            # X.__class__(...) / X.__class__.__new__(X.__class__): constructor of X's class
+            if m == "__class__" or (m == "__new__" and isinstance(f.value, ast.Attribute) and f.value.attr == "__class__"):
+                inner = f.value if m == "__class__" else f.value.value
+                lc = self.lexical_class(inner)
+                base = self.ev(inner, env)
+                tnames = frozenset({lc.name}) if lc is not None else base.types
+                res = V({F}, False, None, tnames)
+                if m == "__class__" and tnames:
+                    for tn in tnames:
+                        for ci in self.src.class_by_name.get(tn, [])[:1]:
+                            for sub in [ci] + (self.src.subclasses(ci) if lc is not None else []):
+                                init = self.src.method(sub, "__init__")
+                                if init is not None and init.rel in self.eng.modules:
+                                    self.apply([init], res, args, kw, c, env)
+                return res
             recv = self.ev(f.value, env)
             # Class.method(...) / cls.method(...)
             if isinstance(f.value, ast.Name) and (f.value.id in self.src.class_by_name or f.value.id == "cls") and f.value.id not in env:
@@ -1076,6 +1165,8 @@ class FuncAnalyzer:
                         add = add.join(a if m != "extend" else (a if a.is_list else self.elem_of(a)))
                     if isinstance(f.value, ast.Name):
                         env[f.value.id] = V((env.get(f.value.id, EMPTY).join(add)).tags, True)
+                        if f.value.id in self.appended:
+                            self.appended[f.value.id] = self.appended[f.value.id].join(add)
                     else:
                         for b in recv.objs():
                             self.effect([b], self.cap(b, VALUE) if wrap_depth(b) else CONF, self.why(c, f"container .{m}()"))
@@ -1093,8 +1184,8 @@ class FuncAnalyzer:
             cands = self.method_candidates(f, recv)
             objs = recv.objs()
             parts_only = all(wrap_depth(t) > 0 for t in objs)
-            if cands and parts_only and m in FRESH_METHODS | VIEW_METHODS and self.lexical_class(f.value) is None \
-                    and not self.part_is_object(objs):
+            if cands and parts_only and self.lexical_class(f.value) is None and not self.part_is_object(objs) \
+                    and (m in FRESH_METHODS | VIEW_METHODS | GENERIC_NAMES | LIST_MUT):
                 cands = []
             if cands:
                 return self.apply(cands, V(objs, False, None, recv.types), args, kw, c, env)
@@ -1249,19 +1340,32 @@ class FuncAnalyzer:
                 if name in tps:
                     actual[tps.index(name)] = v
             mut = DOC_MUTATORS.get(fi.name, set())
-            for i, (lvl, why) in list(s.eff.items()):
+            for i in list(s.eff):
                 v = actual.get(i)
                 if v is None or not v.tags:
                     continue
+                if v.is_list:
+                    # effects on the container itself do not touch the element objects
+                    if i not in s.effp:
+                        continue
+                    lvl, why = s.effp[i]
+                else:
+                    lvl, why = s.eff[i]
+                if fi.name in GAUGE_CONTRACT and i == 0 and recv is not None:
+                    lvl = min(lvl, GAUGE)
                 pname = tps[i] if i < len(tps) else None
-                is_doc = (i in mut) or (pname in mut) or (fi.name in INPLACE_MUTATORS and i == 0 and inplace is not False)
+                is_doc = (i in mut) or (pname in mut) or (fi.name in INPLACE_MUTATORS and i == 0 and inplace is not False) \
+                    or ((fi.rel, fi.qual, pname) in self.eng.doc_pairs)
                 if id(call) in self.fold_ok:
                     lvl = min(lvl, GAUGE)
                 if is_doc:
                     w = self.why(call, f"calls {fi.qual}() [{LEVEL[lvl]} on its {'receiver' if i == 0 and recv is not None else 'argument ' + str(pname)}]")
+                    self.effect(v.objs(), lvl, w)
                 else:
-                    w = why.via(self.where)
-                self.effect(v.objs(), lvl, w)
+                    self.effect(v.objs(), lvl, why.via(self.where))
+                    if lvl >= VALUE and not v.is_list:
+                        for w2 in s.alt.get(i, {}).values():
+                            self.effect(v.objs(), lvl, w2.via(self.where))
             for t in s.ret:
                 out = out.join(self.subst(t, actual))
             if s.ret_is_list:
